@@ -498,7 +498,14 @@ def single_extract(ctx, ev):
     # ordering: dump happens after pop and after the optional replacement
     from sa.absint import flatten_effects
     order_ok = True
+    # `if name in envelope: payload = envelope.pop(name)`: on the other side of that test there is nothing to remove
+    pop_guards = [g for e, g in _with_guards(eff) if isinstance(e, App) and e.op == "eff:call" and e.args[0] == extracted]
+    pop_only_if_present = bool(pop_guards) and all(
+        len(g) == 1 and g[0][1] is True and isinstance(g[0][0], App) and g[0][0].op == "in" and g[0][0].args[0] == name
+        and g[0][0].args[1] in (ENV, App("meth:keys", (ENV,))) for g in [generic.norm_guards(_is_not_as_is(g_)) for g_ in pop_guards])
     for seq in flatten_effects(eff):
+        if pop_only_if_present and not any(isinstance(e, App) and e.op == "eff:call" and e.args[0] == extracted for e in seq):
+            continue
         idx = {("pop" if (isinstance(e, App) and e.op == "eff:call" and e.args[0] == extracted) else
                 "store" if (isinstance(e, App) and e.op == "eff:store") else
                 "dump" if (isinstance(e, App) and e.op == "eff:call" and dumps and e.args[0] == dumps[0]) else None): i
